@@ -30,6 +30,7 @@ use sapling::bundle::{
 };
 use zcash_primitives::transaction::components::orchard::testing as po_testing;
 use zcash_primitives::transaction::components::sapling::testing as ps_testing;
+use zcash_primitives::transaction::components::sprout::{Bundle as SproutBundle, JsDescription};
 use zcash_primitives::transaction::sighash::{signature_hash, SignableInput};
 use zcash_primitives::transaction::testing::arb_tx;
 use zcash_primitives::transaction::txid::TxIdDigester;
@@ -106,6 +107,7 @@ struct MTx {
     sap: Option<Sb>,
     orch: Option<Ob>,
     iron: Option<Ob>,
+    sprout: Option<SproutBundle>,
 }
 /// a coin being spent: value, scriptPubKey, and the script code a signer would use for it
 /// (equal to the scriptPubKey for P2PKH-like coins, the redeem script for P2SH coins)
@@ -188,7 +190,7 @@ impl MTx {
             }
             v => {
                 assert!(i.is_none());
-                TransactionData::from_parts(v, self.branch, self.lock, self.expiry.into(), t, None, s, o)
+                TransactionData::from_parts(v, self.branch, self.lock, self.expiry.into(), t, self.sprout.clone(), s, o)
             }
         }
     }
@@ -211,6 +213,7 @@ impl MTx {
             sap: d.sapling_bundle().map(Sb::of),
             orch: d.orchard_bundle().map(Ob::of),
             iron: d.ironwood_bundle().map(Ob::of),
+            sprout: d.sprout_bundle().cloned(),
         }
     }
     fn n_in(&self) -> usize {
@@ -345,6 +348,77 @@ fn coq_tx_any(t: &MTx) -> String {
     let mut u = t.clone();
     u.version = TxVersion::V5;
     coq_tx(&u)
+}
+fn js_bytes(j: &JsDescription) -> Vec<u8> {
+    let mut v = vec![];
+    j.write(&mut v).unwrap();
+    v
+}
+fn coq_transp(t: &MTx) -> String {
+    match &t.transp {
+        None => "None".into(),
+        Some((vin, vout)) => format!(
+            "(Some (TB {} {}))",
+            list(vin.iter().map(|i| format!(
+                "TI {} {} {} {}",
+                h(i.prevout().hash()),
+                i.prevout().n(),
+                h(script_bytes(i.script_sig())),
+                i.sequence()
+            ))),
+            list(vout.iter().map(|o| format!(
+                "TO {} {}",
+                u64::from(o.value()),
+                h(script_bytes(o.script_pubkey()))
+            )))
+        ),
+    }
+}
+/// a v3/v4 transaction as a Coq `tx4`
+fn coq_tx4(t: &MTx) -> String {
+    let ver = match t.version {
+        TxVersion::V3 => "VV3",
+        TxVersion::V4 => "VV4",
+        _ => panic!("v3/v4 only"),
+    };
+    let (js, pk, sig) = match &t.sprout {
+        Some(b) if !b.joinsplits.is_empty() => (
+            list(b.joinsplits.iter().map(|j| h(&js_bytes(j)))),
+            h(&b.joinsplit_pubkey),
+            h(&b.joinsplit_sig),
+        ),
+        _ => ("[]".to_string(), h(&[]), h(&[])),
+    };
+    format!(
+        "(TX4 {} {} {} {} {} {} {} {} {})",
+        ver,
+        u32::from(t.branch),
+        t.lock,
+        t.expiry,
+        coq_transp(t),
+        coq_sb(&t.sap),
+        js,
+        pk,
+        sig
+    )
+}
+fn coq_obs4(t: &MTx, reqs: &[Req], o: &Obs) -> String {
+    let tx = t.authorized().freeze().unwrap();
+    assert_eq!(tx.txid().as_ref(), &o.txid);
+    let sigs = list(reqs.iter().zip(o.sigs.iter()).filter_map(|(r, d)| {
+        d.map(|d| {
+            format!(
+                "SG4 {} {}%nat {} {} {} {}",
+                r.ht,
+                r.idx,
+                u64::from(r.value),
+                h(script_bytes(&r.spk)),
+                h(script_bytes(&r.code)),
+                h(&d)
+            )
+        })
+    }));
+    format!("(OBS4 {} {} {} {})", h(&o.txid), h(&sha256d(&ser(&tx))), h(&o.shsig), sigs)
 }
 fn coq_coins(c: &[Coin]) -> String {
     list(c.iter().map(|(v, s, _)| format!("({}, {})", u64::from(*v), h(script_bytes(s)))))
@@ -706,7 +780,7 @@ impl Gen {
             None
         };
         let version = if v6 { TxVersion::V6 } else { TxVersion::V5 };
-        let t = MTx { version, branch, lock, expiry, transp, sap, orch, iron };
+        let t = MTx { version, branch, lock, expiry, transp, sap, orch, iron, sprout: None };
         let coins = (0..t.n_in()).map(|_| self.coin()).collect();
         (t, coins)
     }
@@ -952,6 +1026,25 @@ fn mutate(g: &mut Gen, t: &MTx, coins: &[Coin], field: u32) -> Option<(MTx, Vec<
                 _ => o.bsig = flip_sig64(<[u8; 64]>::from(&o.bsig), rng),
             }
         }
+        85..=87 => {
+            // JoinSplit data (only transactions read from the ZIP 143/243 vectors carry any)
+            let b = m.sprout.as_mut()?;
+            if b.joinsplits.is_empty() {
+                return None;
+            }
+            match field {
+                85 => {
+                    let k = g.rng.below(b.joinsplits.len() as u64) as usize;
+                    which = k;
+                    let mut bytes = js_bytes(&b.joinsplits[k]);
+                    let n = bytes.len();
+                    flip(&mut bytes[n - 1202..], &mut g.rng);
+                    b.joinsplits[k] = JsDescription::read(&bytes[..], n == 1698).ok()?;
+                }
+                86 => flip(&mut b.joinsplit_pubkey, &mut g.rng),
+                _ => flip(&mut b.joinsplit_sig, &mut g.rng),
+            }
+        }
         _ => return None,
     }
     if c.len() != m.n_in() {
@@ -1117,31 +1210,6 @@ fn ver_code(v: TxVersion) -> u32 {
     }
 }
 
-/// v3/v4 sighash through the public entry point (shielded, and transparent for `idx` x hash types,
-/// with script_code = the coin's script).
-fn v4_sighashes(t: &MTx, coins: &[Coin], idx: usize) -> Vec<(u32, Option<[u8; 32]>)> {
-    let data = t.authorized();
-    let parts = data.digest(TxIdDigester);
-    let sd = t.signing(coins);
-    let mut v = vec![(0u32, catch(|| *signature_hash(&sd, &SignableInput::Shielded, &parts).as_ref()))];
-    if idx < t.n_in() {
-        for ht in HASH_TYPES {
-            let b = sd.transparent_bundle().unwrap();
-            let si = zcash_transparent::sighash::SignableInput::from_parts(
-                b,
-                SighashType::parse(ht).unwrap(),
-                idx,
-                &coins[idx].2,
-                &coins[idx].1,
-                coins[idx].0,
-            )
-            .unwrap();
-            v.push((ht as u32, catch(|| *signature_hash(&sd, &SignableInput::Transparent(si), &parts).as_ref())));
-        }
-    }
-    v
-}
-
 fn emit_v4_mut(g: &mut Gen, t: &MTx, coins: &[Coin], field: u32, own: bool) -> bool {
     let n_in = t.n_in();
     let (m, c, which) = if field >= 90 {
@@ -1165,33 +1233,29 @@ fn emit_v4_mut(g: &mut Gen, t: &MTx, coins: &[Coin], field: u32, own: bool) -> b
     };
     // sign the input/output position that was mutated (`own`) or another one
     let idx = if n_in == 0 { 0 } else if own { which.min(n_in - 1) } else { (which + 1) % n_in };
-    if field < 90 && coq_tx_any(t) == coq_tx_any(&m) {
+    if field < 90 && coq_tx4(t) == coq_tx4(&m) {
         return false;
     }
-    let tx1 = t.authorized().freeze().unwrap();
-    let tx2 = m.authorized().freeze().unwrap();
-    let s1 = v4_sighashes(t, coins, idx);
-    let s2 = v4_sighashes(&m, &c, idx);
-    let n_out = t.n_out();
-    let sigs = list(s1.iter().zip(s2.iter()).filter_map(|((k, a), (_, b))| match (a, b) {
-        (Some(a), Some(b)) => Some(format!("({}, {}, {})", k, h(a), h(b))),
-        _ => None,
-    }));
+    let r1 = all_reqs(t, coins, &[idx]);
+    let r2 = all_reqs(&m, &c, &[idx]);
+    let o1 = observe(t, coins, &r1);
+    let o2 = observe(&m, &c, &r2);
     case(format!(
-        "CV4Mut {} {} {}%nat {}%nat {}%nat {} {} {} {} {}",
+        "CV4Mut {} {} {} {} {}",
         field,
-        ver_code(t.version),
-        idx,
-        which,
-        n_out,
-        h(tx1.txid().as_ref()),
-        h(tx2.txid().as_ref()),
-        h(&sha256d(&ser(&tx1))),
-        h(&sha256d(&ser(&tx2))),
-        sigs
+        coq_tx4(t),
+        coq_tx4(&m),
+        coq_obs4(t, &r1, &o1),
+        coq_obs4(&m, &r2, &o2)
     ));
     g.bump(&format!("v4mut_{}", field));
     true
+}
+
+fn emit_v4_tx(tag: u32, t: &MTx, coins: &[Coin], reqs: &[Req]) -> Obs {
+    let o = observe(t, coins, reqs);
+    case(format!("CV4Tx {} {} {}", tag, coq_tx4(t), coq_obs4(t, reqs, &o)));
+    o
 }
 
 // ---------------------------------------------------------------------------------------------
@@ -1392,11 +1456,17 @@ fn main() {
     {
         use zcash_primitives::transaction::tests::data::{zip_0143, zip_0243};
         let mut n = 0;
-        for (txb, br) in zip_0143::make_test_vectors()
-            .iter()
-            .map(|v| (v.tx.clone(), v.consensus_branch_id))
-            .chain(zip_0243::make_test_vectors().iter().map(|v| (v.tx.clone(), v.consensus_branch_id)))
-        {
+        let vecs: Vec<(Vec<u8>, BranchId, Script, Option<u32>, u32, i64, [u8; 32])> = zip_0143::make_test_vectors()
+            .into_iter()
+            .map(|v| (v.tx, v.consensus_branch_id, v.script_code, v.transparent_input, v.hash_type, v.amount, v.sighash))
+            .chain(
+                zip_0243::make_test_vectors()
+                    .into_iter()
+                    .map(|v| (v.tx, v.consensus_branch_id, v.script_code, v.transparent_input, v.hash_type, v.amount, v.sighash)),
+            )
+            .collect();
+        let mut js_mut = 0;
+        for (txb, br, code, tin, ht, amount, expected) in vecs {
             let tx = Transaction::read(&txb[..], br).expect("vector parses");
             assert_eq!(ser(&tx), txb);
             case(format!(
@@ -1408,6 +1478,32 @@ fn main() {
             ));
             n += 1;
             n_cases += 1;
+            if !matches!(tx.version(), TxVersion::V3 | TxVersion::V4) {
+                continue;
+            }
+            // the vector's own signature hash through the ZIP 143/243 model
+            let t = MTx::of(&tx);
+            let coins: Vec<Coin> = (0..t.n_in()).map(|_| g.coin()).collect();
+            let value = Zatoshis::from_nonnegative_i64(amount).unwrap();
+            let reqs: Vec<Req> = tin
+                .iter()
+                .map(|i| Req { ht: ht as u8, idx: *i as usize, value, spk: g.script(false), code: code.clone() })
+                .collect();
+            let o = emit_v4_tx(1, &t, &coins, &reqs);
+            match tin {
+                Some(_) => assert_eq!(o.sigs[0], Some(expected)),
+                None => assert_eq!(o.shsig, expected),
+            }
+            n_cases += 1;
+            // JoinSplit fields can only be mutated on these transactions
+            if t.sprout.as_ref().map_or(false, |b| !b.joinsplits.is_empty()) && js_mut < a.budget(2, 8) {
+                js_mut += 1;
+                for f in [85u32, 86, 87] {
+                    if emit_v4_mut(&mut g, &t, &coins, f, true) {
+                        n_cases += 1;
+                    }
+                }
+            }
         }
         g.stats.insert("zip143_243_vectors".into(), n);
     }
@@ -1432,6 +1528,14 @@ fn main() {
             t.version = TxVersion::V3;
             t.branch = BranchId::Overwinter;
             t.sap = None;
+        }
+        {
+            let mut reqs = all_reqs(&t, &coins, &[(r % 2) as usize]);
+            let ht = *g.rng.pick(&HASH_TYPES);
+            let other = 1 - (r % 2) as usize;
+            reqs.push(Req { ht, idx: other, value: coins[other].0, spk: coins[other].1.clone(), code: coins[other].2.clone() });
+            emit_v4_tx(2, &t, &coins, &reqs);
+            n_cases += 1;
         }
         for f in [1u32, 2, 10, 11, 12, 13, 20, 21, 30, 31, 32, 33, 34, 35, 40, 41, 42, 43, 44, 45, 46, 47, 48, 49, 94, 95, 97] {
             for own in [true, false] {
